@@ -34,9 +34,10 @@ RULE = (
     'ordered pair of scopes; pairs = two variables / two sibling options in every pair of layers; typed = typed '
     'options fed from native values, text, references, chains. Each document is observed for every component '
     '(stage 0 with/without component layers, stage 1) on every platform {default, P, Q} through the entry points '
-    'concrete / conf-prim / conf-repl / experiment (quick: one load platform per document in rotation and, for the '
-    'three largest families, one of the two package loaders per document; thorough: all, except one load platform '
-    'per loader for the partially-defined-reference shapes and the pair-subsets stratum). A case (document x entry point x load platform) is non-trivial when at least two layers (counting the '
+    'concrete / conf-prim / conf-repl / experiment (quick: every document through concrete, plus one load platform '
+    'in rotation through at most one of the two package loaders - every other opt-subsets / chain document only '
+    'through concrete; thorough: every load platform through both loaders, except one load platform per loader for '
+    'the partially-defined-reference shapes and the pair-subsets stratum). A case (document x entry point x load platform) is non-trivial when at least two layers (counting the '
     'built-in defaults) define the tracked item or a reference has to be substituted; distinct = distinct case.')
 ASSUMPTIONS = [
     'within the user-supplied layer a stage-scoped variable beats a global one (same global-then-stage order the '
@@ -111,9 +112,17 @@ def plan(family, idx, spec, thorough):
         if not thorough:
             # quick tier: the three big families go through one of the two package loaders per document
             if family == 'opt-subsets':
-                prim, repl = spec[2] == 'lit', spec[2] in ('ref', 'ref-rebound')
-            elif family in ('var-subsets', 'chain'):
+                # ... and every other subset (by parity of its size, shifted per option) goes through a loader at all
+                half = (bin(spec[3]).count('1') + sorted(G.OPTIONS).index(spec[1])) % 2 == 0
+                prim, repl = spec[2] == 'lit' and half, spec[2] in ('ref', 'ref-rebound') and half
+            elif family == 'var-subsets':
                 prim = bin(idx).count('1') % 2 == 0
+                repl = not prim
+            elif family == 'chain':
+                prim = idx % 4 == 0
+                repl = idx % 4 == 2
+            else:
+                prim = idx % 2 == 0
                 repl = not prim
         every = thorough
         if spec[0] == 'var-pair-subsets' or (family == 'opt-subsets' and spec[2] in ('ref-comp-only', 'ref-bp-only')):
